@@ -225,6 +225,23 @@ def run(res: Results, idx: Index, tier: str) -> None:
         else:
             res.violation("R-C04d", f"{mod.rel}:{c.lineno}", key, f"scope `{sc.id}` is not a single SymbolicScope created once (defs: {len(defs)}, created in a loop: {in_loop})", fi.qualname)
 
+    # ---- R-C04e: two symbols are never assumed equal outside the dimension lowering either
+    # (decided by their own properties' rules; re-decided here because they are C04's clause "equal/unequal symbols")
+    if not getattr(res, "_nested_xref", False):
+        from . import c02, c07
+        res.rule("R-C04e", "symbol identity survives the optimizer's shape guard (C02 R-C02c) and the function dedup key (C07 R-C07a input signature)", floor=2)
+        n_x = 0
+        for mod, prop, pick in ((c02, "C02", lambda i_: i_.rule == "R-C02c"), (c07, "C07", lambda i_: i_.rule == "R-C07a" and i_.key.endswith("::input-signature"))):
+            sub = Results(prop, tier)
+            setattr(sub, "_nested_xref", True)
+            mod.run(sub, idx, tier)
+            for inst in sub.instances:
+                if pick(inst):
+                    n_x += 1
+                    res.add("R-C04e", inst.status, inst.site, f"{inst.rule}::{inst.key}", f"[{prop} {inst.rule}] {inst.detail}", inst.func)
+        if n_x < 2:
+            raise AnalysisError(f"only {n_x} cross-referenced symbol-identity instances found")
+
 
 def _inside(n: ast.AST, root: ast.AST) -> bool:
     cur: Optional[ast.AST] = n
